@@ -371,7 +371,15 @@ func randName(r *kit.Rand) string {
 	}
 }
 
-func randBody(r *kit.Rand, pn string) string {
+// randBody returns a body and whether it passes the package-clause scan but not the full parse
+// (so that the GnoVM verdict the generator must supply is `t`).
+func randBody(r *kit.Rand, pn string) (string, bool) {
+	b := randBody1(r, pn)
+	t := strings.TrimRight(b, " \t\r")
+	return b, strings.HasSuffix(t, "}") || strings.HasSuffix(t, ")")
+}
+
+func randBody1(r *kit.Rand, pn string) string {
 	switch r.Intn(8) {
 	case 0:
 		return string(r.Bytes(r.Range(0, 12)))
@@ -414,10 +422,16 @@ func malformed(w *kit.Out, r *kit.Rand, id string, nops int) {
 			if r.Chance(30) || pn == "" {
 				pn = kit.Pick(r, []string{"a", "x", "ab", "_", "A", ""})
 			}
-			s := addSpec{h: int64(r.Intn(50)), acct: r.Intn(5), path: p, name: pn, gm: kit.Pick(r, gmTokens), v: "oti"[r.Intn(3)]}
+			// bodies here are bare package clauses: the VM's verdict is `o` unless the full parse fails
+			s := addSpec{h: int64(r.Intn(50)), acct: r.Intn(5), path: p, name: pn, gm: kit.Pick(r, gmTokens), v: 'o'}
 			nf := r.Range(0, 4)
 			for i := 0; i < nf; i++ {
-				s.files = append(s.files, gfile{randName(r), randBody(r, pn)})
+				fn := randName(r)
+				b, needT := randBody(r, pn)
+				if needT && strings.HasSuffix(fn, ".gno") {
+					s.v = 't'
+				}
+				s.files = append(s.files, gfile{fn, b})
 			}
 			if s.gm != "-" && r.Chance(90) {
 				s.files = append(s.files, gfile{"gnomod.toml", "@"})
